@@ -183,7 +183,11 @@ pub fn mut_step(d: &mut Driver, ch: &mut dyn Chooser, i: usize, full: bool) {
                 }
                 if m.len() != len {
                     d.viol("C04", "reserve-len", "reserve changed the length");
+                } else if s.as_slice() != &s.model[..] {
+                    let k = s.as_slice().iter().zip(s.model.iter()).position(|(a, b)| a != b).unwrap_or(0);
+                    d.viol("C04", "reserve-contents", &format!("reserve({n}) changed the contents (first difference at {k} of {len}; {rname}, outcome: {})", if ev.byte_allocs > 0 { "allocated" } else if s.ptr() != p0 { "moved" } else { "in place" }));
                 }
+                let m = mref(&mut s);
                 let outcome = if ev.byte_allocs > 0 {
                     "alloc"
                 } else if m.as_ptr() as usize != p0 {
@@ -228,6 +232,8 @@ pub fn mut_step(d: &mut Driver, ch: &mut dyn Chooser, i: usize, full: bool) {
                     }
                     if m.len() != len {
                         d.viol("C04", "try_reclaim-len", "try_reclaim changed the length");
+                    } else if s.as_slice() != &s.model[..] {
+                        d.viol("C04", "try_reclaim-contents", &format!("try_reclaim({n}) returned true and changed the contents ({rname})"));
                     }
                 } else if m.as_ptr() as usize != p0 || m.len() != len || m.capacity() != cap {
                     d.viol("C04", "try_reclaim-false-changed", &format!("try_reclaim({n}) returned false but (ptr,len,cap) changed"));
